@@ -186,7 +186,7 @@ Proof. intros R. now apply (raster_ok_same st). Qed.
 Theorem fill_rect_idle st x y w h src o st' : raster_ok st -> fill_rect st x y w h src o = Ok st' -> raster_ok st'.
 Proof.
   intros R E. unfold fill_rect in E. destruct (xf_is_identity (d_ctm st) && _ && _).
-  - destruct (chk32 _); [|discriminate]. cbn [bind] in E. destruct (chk32 _); [|discriminate]. cbn [bind] in E.
+  - cbv zeta in E.
     destruct (r_empty _); [inversion E; subst; exact R|]. now apply (composite_idle _ _ _ _ _ _ _ _ R E).
   - now apply (fill_idle _ _ _ _ _ R E).
 Qed.
@@ -211,7 +211,7 @@ Proof.
       now apply (raster_ok_same st).
     + destruct (fill _ _ _ _) as [s2|] eqn:Ef; [|discriminate]. cbn [bind] in E. inversion E; subst st'.
       apply with_ctm_idle. refine (fill_idle _ _ _ _ _ _ Ef). now apply with_ctm_idle.
-  - (* mask *) unfold mask_op in E. destruct (chk32 _); [|discriminate]. cbn [bind] in E. destruct (chk32 _); [|discriminate]. cbn [bind] in E.
+  - (* mask *) unfold mask_op in E. cbv zeta in E.
     now apply (composite_idle _ _ _ _ _ _ _ _ R E).
   - now apply (fill_rect_idle _ _ _ _ _ _ _ _ R E).
   - now apply (fill_rect_idle _ _ _ _ _ _ _ _ R E).
